@@ -90,7 +90,7 @@ def run_case(ctx, case):
         model = projgen.add_toolchains(model, case["toolchains"])
     if case.get("sbprovider"):
         from checks.c03_idpurity import with_sandbox_provider
-        model = with_sandbox_provider(model)
+        model = with_sandbox_provider(model, case["sbprovider"])
     base = ctx.tmpdir()
     W = os.path.join(base, "warm")
     os.makedirs(W)
@@ -152,7 +152,7 @@ def run_case(ctx, case):
 def case_st(quick):
     return st.fixed_dictionaries({"model": projgen.model_st(4, 6 if quick else 7, richness=1, dense=True),
                                   "edits": st.lists(projgen.edit_st, min_size=2, max_size=4 if quick else 6),
-                                  "sandbox": st.integers(0, 255), "sbprovider": st.booleans(),
+                                  "sandbox": st.integers(0, 255), "sbprovider": st.sampled_from([False, True, 1, 2, 3]),
                                   "toolchains": st.sampled_from([None, 0, 1, 2, 3, 4, 5])})
 
 def shard(ctx):
